@@ -11,14 +11,23 @@ import gen as G
 LEVEL = "proof"
 DRIVERS = ["driver_c14"]
 TRUSTED = ["model: coq/Model/NpWrap.v (construct, init_out = _initialize_tsd_output, array_ufunc, array_function, mixed_ufunc, concat_tsd incl. _check_time_equals, "
-           "split_tsd incl. np.split/np.array_split division points, split_other) over Model/Restrict.v and Model/Iset.v; theorems: Proofs/NpWrapProofs.v",
+           "split_tsd incl. np.split/np.array_split division points, split_tsd_axis = the literal `axis == 0` dispatch (not extracted: stated and refuted in Coq only), split_other) "
+           "over Model/Restrict.v and Model/Iset.v; theorems: Proofs/NpWrapProofs.v",
            "follows /repo as repaired: 0-d results passed through, multi-output ufuncs wrapped per output (array_ufunc_multi), np.array_split divides the index with np.array_split",
            "PARTIAL: what a NumPy function computes is a parameter of every wrapper theorem (Section variable f with the single law 'an array result fills its shape'); "
            "the commuting diagram values(wrap f x) = f(values x) is proved of the model and tied to /repo by exact comparison with the same NumPy call on the raw array",
            "NumPy's contracts transcribed in the model: row-major concatenate along axis 0 (cat0), np.split/np.array_split division points, np.allclose broadcasting (1-d)"]
 ASSUMPTIONS = ["operands are well-formed time series (sorted timestamps inside a canonical support; an empty series has the empty support) built with an explicit time_support",
-               "concatenation: 'all timestamps lie in the union of the supports' is a visible hypothesis (IntervalSet.union trims touching intervals by 1 us - C01's allowance); "
-               "proved for two operands whose timestamps are farther than 1 us from every support endpoint",
+               "concatenation, theorem side: 'all timestamps lie in the union of the supports' is a visible hypothesis of C14_concat_time (IntervalSet.union trims touching intervals by 1 us); "
+               "proved for two operands whose timestamps are farther than 1 us from every support endpoint (C14_concat_support_two) and for any number of operands none of whose timestamps "
+               "lies in the closed microsecond [p - 1 us, p] before a START p of an operand's support (C14_concat_support_all); the three-operand gap the pairwise fold leaves is "
+               "C14_concat_fold_union_refuted, the 1 ns time-axis equality is C14_concat_time_equal_1ns_refuted",
+               "concatenation, oracle side: NO tolerance - the result support must be the exact union of the operands' supports except for the open microsecond (p - 1 us, p) before a point p "
+               "where two merged components touch (C01's statement), and every row must be present unless its timestamp lies in such a microsecond (recorded finding)",
+               "np.allclose(atol=1e-9) of _check_time_equals is modelled as |a - b| <= 1 tick; for values exactly 1 ns apart the float comparison is decided by rounding: those cases are "
+               "counted float_ambiguous in the model comparison (the statement-level oracle still judges them: a time series result must carry every operand's time axis exactly)",
+               "split: the model's split_tsd is the `axis == 0` branch; the negative spelling of the time axis (axis=-ndim) and the keyword spelling (ary=) are judged by the oracle only "
+               "(C14_split_negative_axis_refuted records what the code's literal test does)",
                "not modelled: in-place operators / out= holding a time series (the implementation recurses), kwargs holding time series, TsdFrame metadata (C13), negative split indices, jax backend"]
 
 U = 1953125  # 2^-9 s in ticks
@@ -31,10 +40,10 @@ def _nap():
 
 # ------------------------------------------------------------------------------------------------
 # objects
-def mk(nap, shape, t0=0, sup=None, dtype=float, base=1, cols_base=10):
-    """time series of the class given by the rank of `shape`; times t0 + 2U*i; distinct small integer cells"""
+def mk(nap, shape, t0=0, sup=None, dtype=float, base=1, cols_base=10, ticks=None):
+    """time series of the class given by the rank of `shape`; times t0 + 2U*i (or `ticks`); distinct small integer cells"""
     n = shape[0]
-    ticks = [t0 + 2 * U * i for i in range(n)]
+    ticks = [t0 + 2 * U * i for i in range(n)] if ticks is None else ticks
     if sup is None:
         sup = [(t0 - U, t0 + 4 * U + 1000), (t0 + 6 * U - 1000, t0 + 2 * U * max(n, 5) + U)]
     d = (np.arange(int(np.prod(shape))) + base).reshape(shape).astype(dtype)
@@ -511,9 +520,13 @@ def run_mixed(nap, res):
         if is_nap(nap, r):
             if ticks_of(r) != ticks_of(outer) or sup_of(r) != sup_of(outer):
                 viol(res, {"op": "ufunc", "operand": "other_class", "part": "time_axis"}, "timestamps / support not carried", inp)
-            for x in (outer, inner):
+            for role, x in (("outer", outer), ("inner", inner)):
                 if isinstance(x, nap.TsdFrame) and isinstance(r, nap.TsdFrame) and r.shape[1] == x.shape[1] and cols_of(nap, r) != cols_of(nap, x):
-                    viol(res, {"op": "ufunc", "operand": "other_class", "part": "columns"},
+                    # recorded finding: the frame is the INNER operand (its own wrapper kept the labels, the outer class's wrapper re-wrapped last and dropped them);
+                    # a frame that is the outer operand and loses its labels is a different defect and gets its own part
+                    other = inner if role == "outer" else outer
+                    viol(res, {"op": "ufunc", "operand": "other_class", "part": "columns" if role == "inner" else "columns_of_outer_frame", "frame_is": role,
+                               "other_class": type(other).__name__, "result_has_default_labels": cols_of(nap, r) == list(range(r.shape[1]))},
                          "TsdFrame operand, TsdFrame result with the same number of columns, but its column labels are lost (the other class's wrapper re-wrapped last)", inp,
                          impl=cols_of(nap, r), expected=cols_of(nap, x))
 
@@ -552,38 +565,118 @@ def strictly_inc(l):
     return all(a < b for a, b in zip(l, l[1:]))
 
 
-def support_is_union(rs, sups):
-    """membership of the result support = membership in some operand's support, at every lattice probe farther than 1 us from all endpoints"""
-    ends = [v for s in sups for iv in s for v in iv]
-    if not ends:
-        return rs == []
-    lo, hi = min(ends) - 2 * U, max(ends) + 2 * U
-    probes = set()
-    for v in ends:
-        probes.update([v - U // 5, v + U // 5, v - 1001, v + 1001])
-    probes.update(range(lo, hi, U // 2))
-    for p in probes:
-        if any(abs(p - v) <= 1000 for v in ends):
-            continue
-        if G.mem(p, rs) != union_mem(p, sups):
-            return False
-    return G.canonical(rs)
+def merged_union(sups):
+    """the union the statement names, on integer ns: the intervals of all operand supports, merged when their interiors overlap;
+    touch = the points p where one merged component ends and the next one starts (C01: those two are kept apart by trimming 1 us)"""
+    comps, touch = [], []
+    for s_, e_ in sorted(iv for s in sups for iv in s if iv[0] < iv[1]):
+        if comps and s_ < comps[-1][1]:
+            comps[-1][1] = max(comps[-1][1], e_)
+        else:
+            if comps and s_ == comps[-1][1]:
+                touch.append(s_)
+            comps.append([s_, e_])
+    return comps, touch
+
+
+def in_trimmed_us(t, touch):
+    """t lies in the one microsecond C01 lets the constructor trim: the open interval (p - 1 us, p) before a touching point p"""
+    return any(p - 1000 < t < p for p in touch)
+
+
+def fold_touch(sups):
+    """the touching points met while the supports are united PAIRWISE from the left (time_support.union(..).union(..), what _concatenate_tsd does):
+    each step trims 1 us before such a point, and a later operand that covers this microsecond no longer closes it all"""
+    acc, pts = [], []
+    for s in sups:
+        comps, touch = merged_union([acc, s])
+        pts += touch
+        acc = [(a, b - 1000 if b in touch else b) for a, b in comps]
+        acc = [(a, b) for a, b in acc if a < b]
+    return pts
+
+
+def support_vs_union(rs, sups, touch_override=None):
+    """None when the result support is EXACTLY the union of the operands' supports, where the only allowance is the one of C01's statement
+    (exactly-touching components kept apart: the open microsecond before the touching point may be missing); otherwise the reason.
+    Exact: every set involved is a finite union of closed intervals with endpoints in E, so membership is constant between consecutive
+    points of E; E and one point inside every gap are probed (coordinates doubled so that the inner points are integers)."""
+    if not G.canonical(rs):
+        return "not_canonical"
+    comps, touch = merged_union(sups)
+    if touch_override is not None:
+        touch = touch_override
+    E = sorted(set(2 * v for iv in rs for v in iv) | set(2 * v for c in comps for v in c) | set(2 * (p - 1000) for p in touch))
+    if not E:
+        return None
+    probes = [E[0] - 2] + E + [a + 1 for a, b in zip(E, E[1:]) if b - a >= 2] + [E[-1] + 2]
+    for q in probes:
+        inr = any(2 * a <= q <= 2 * b for a, b in rs)
+        inu = any(2 * a <= q <= 2 * b for a, b in comps)
+        if inr and not inu:
+            return "covers_a_point_outside_the_union"
+        if inu and not inr and not any(2 * (p - 1000) < q < 2 * p for p in touch):
+            return "misses_a_point_of_the_union_outside_the_trimmed_microsecond"
+    return None
+
+
+def ns_boundary(xs):
+    """some pair of operands has two timestamps or two support endpoints at the same position exactly 1 ns apart"""
+    for a, b in itertools.combinations(xs, 2):
+        ta, tb = ticks_of(a), ticks_of(b)
+        sa, sb = [v for iv in sup_of(a) for v in iv], [v for iv in sup_of(b) for v in iv]
+        for p, q in ((ta, tb), (sa, sb)):
+            if len(p) == 1:
+                p = p * len(q)
+            if len(q) == 1:
+                q = q * len(p)
+            if any(abs(u - v) == 1 for u, v in zip(p, q)):
+                return True
+    return False
+
+
+def rows_key(nap, r, e, tcat, sups):
+    """key of a concatenation along time whose rows / timestamps are not the operands' appended.  The recorded way to lose rows: supports that touch at p are
+    united as [.., p - 1 us], [p, ..] (C01) and the result is restricted to that union.  trimmed = EXACTLY the rows whose timestamp lies in such an open microsecond
+    (p - 1 us, p) are missing, every other row is there, in order, with NumPy's values.  by_fold = the same, but p is a touching point of an intermediate pairwise
+    union that is not one of the whole union (a later operand covers it)"""
+    def exactly_missing(touch):
+        keep = [i for i, t in enumerate(tcat) if not in_trimmed_us(t, touch)]
+        return len(keep) < len(tcat) and ticks_of(r) == [tcat[i] for i in keep] and same_values(raw(nap, r), e[keep])
+    trimmed = exactly_missing(merged_union(sups)[1])
+    by_fold = not trimmed and exactly_missing(fold_touch(sups))
+    return {"part": "rows_or_time" + ("_within_1us_of_support_end" if trimmed else ""), "only_rows_in_the_trimmed_microsecond_before_a_touching_support_are_missing": trimmed,
+            "only_rows_in_a_microsecond_trimmed_by_an_intermediate_pairwise_union_are_missing": by_fold}
+
+
+def support_key(rs, sups):
+    why = support_vs_union(rs, sups)
+    if why is None:
+        return None
+    by_fold = why.startswith("misses") and support_vs_union(rs, sups, touch_override=fold_touch(sups)) is None
+    return {"part": "support", "how": why, "only_a_microsecond_trimmed_by_an_intermediate_pairwise_union_is_missing": by_fold}
 
 
 def concat_operands(nap, tier):
     """complete small space of operand lists: class x row shape x lengths x time layout x support layout"""
     out = []
-    layouts = ["sequential", "touching", "overlap", "reversed", "interleaved", "same", "last_off", "first_off"]
-    sup_layouts = ["own", "shared", "touching"]
+    # time axes "equal up to precision": identical except that the last operand's first stamp (or every stamp) is 1 ns / 2 ns later
+    NS_T = {"last_first_stamp_1ns": (1, False), "last_first_stamp_2ns": (2, False), "last_all_stamps_1ns": (1, True)}
+    NS_S = {"shared_last_end_1ns": 1, "shared_last_end_2ns": 2, "shared_last_start_1ns": -1}
+    layouts = ["sequential", "touching", "overlap", "reversed", "interleaved", "same", "last_off", "first_off"] + list(NS_T)
+    sup_layouts = ["own", "shared", "touching"] + list(NS_S)
+    same_axis = ("same", "last_off", "first_off") + tuple(NS_T)
     for tail in [(), (2,), (1,), (2, 2)]:
         for lens in [(2,), (0,), (2, 3), (1, 1), (0, 2), (2, 0), (1, 0), (0, 0), (3, 1, 2), (2, 0, 1), (1, 2, 0), (2, 2, 2), (2, 2), (1, 1, 1)]:
             for lay in layouts:
                 # equal-length operands with (partly) identical time axes: the non-time-axis forms may return a time series
                 # only when EVERY operand shares the time axis
-                if (lay in ("same", "last_off", "first_off")) != (lens in [(2, 2, 2), (2, 2), (1, 1, 1)]):
+                if (lay in same_axis) != (lens in [(2, 2, 2), (2, 2), (1, 1, 1)]):
                     continue
                 for sl in sup_layouts:
                     if len(lens) == 1 and (lay != "sequential" or sl != "own"):
+                        continue
+                    if (lay in NS_T and sl != "shared") or (sl in NS_S and lay != "same"):
                         continue
                     starts = []
                     pos = 0
@@ -599,7 +692,7 @@ def concat_operands(nap, tier):
                             pos += 2 * U * max(n - 2, 0) if n else 0
                         elif lay == "reversed":
                             starts.append(-i * 2 * U * 6)
-                        elif lay == "same":
+                        elif lay == "same" or lay in NS_T:
                             starts.append(0)
                         elif lay == "last_off":
                             starts.append(U if i == len(lens) - 1 else 0)
@@ -610,13 +703,21 @@ def concat_operands(nap, tier):
                     ops = []
                     for i, n in enumerate(lens):
                         t0 = starts[i]
+                        islast = i == len(lens) - 1
                         if sl == "own":
                             sup = [(t0 - U // 2, t0 + 2 * U * max(n, 1) - U)]
                         elif sl == "shared":
                             sup = [(-100 * U, 100 * U)]
+                        elif sl in NS_S:
+                            d = NS_S[sl] if islast else 0
+                            sup = [(-100 * U + (1 if d < 0 else 0), 100 * U + max(d, 0))]
                         else:                            # supports that touch / overlap the neighbour's
                             sup = [(t0 - 2 * U, t0 + 2 * U * max(n, 1))]
-                        ops.append(mk(nap, (n,) + tail, t0=t0, sup=sup, base=1 + 20 * i, cols_base=10 + 10 * i))
+                        tk = None
+                        if lay in NS_T and islast:
+                            d, every = NS_T[lay]
+                            tk = [t0 + 2 * U * j + (d if (every or j == 0) else 0) for j in range(n)]
+                        ops.append(mk(nap, (n,) + tail, t0=t0, sup=sup, base=1 + 20 * i, cols_base=10 + 10 * i, ticks=tk))
                     out.append(({"tail": list(tail), "lens": list(lens), "times": lay, "supports": sl}, ops))
     return out
 
@@ -625,7 +726,8 @@ def concat_family():
     return [("concatenate", lambda L: np.concatenate(L)), ("concatenate(axis=0)", lambda L: np.concatenate(L, axis=0)), ("concatenate(L,0)", lambda L: np.concatenate(L, 0)),
            ("vstack", lambda L: np.vstack(L)), ("hstack", lambda L: np.hstack(L)), ("dstack", lambda L: np.dstack(L)),
            ("concatenate(axis=1)", lambda L: np.concatenate(L, axis=1)), ("concatenate(L,1)", lambda L: np.concatenate(L, 1)),
-           ("concatenate(axis=-1)", lambda L: np.concatenate(L, axis=-1)), ("concatenate(axis=None)", lambda L: np.concatenate(L, axis=None))]
+           ("concatenate(axis=-1)", lambda L: np.concatenate(L, axis=-1)), ("concatenate(axis=None)", lambda L: np.concatenate(L, axis=None)),
+           ("concatenate(axis=-ndim)", lambda L: np.concatenate(L, axis=-_nd(L[0])))]
 
 
 def run_concat(nap, res, tier, operand_lists=None, tag="concat"):
@@ -636,7 +738,7 @@ def run_concat(nap, res, tier, operand_lists=None, tag="concat"):
             for rawmix in (None, 0, 1):
                 if rawmix is not None and (fname not in ("concatenate", "hstack", "concatenate(axis=-1)") or len(ops) != 2):
                     continue
-                if operand_lists is not None and fname in ("concatenate(L,0)", "concatenate(L,1)", "concatenate(axis=-1)"):
+                if operand_lists is not None and fname in ("concatenate(L,0)", "concatenate(L,1)", "concatenate(axis=-1)", "concatenate(axis=-ndim)"):
                     continue
                 L = [np.array(o.values) if rawmix == i else o for i, o in enumerate(ops)]
                 V = [np.array(o.values) for o in ops]
@@ -661,6 +763,11 @@ def run_concat(nap, res, tier, operand_lists=None, tag="concat"):
         m = parse_out(mo)
         res.count("concat_verdict:" + m["kind"] + (":" + m.get("err", "") if m["kind"] == "ERR" else ""))
         why = agree(nap, m, got, cells_expected=[int(v) for v in e.ravel()])
+        if why is not None and not along_time and ns_boundary([o for o in L if is_nap(nap, o)]):
+            # _check_time_equals is np.allclose(.., rtol=0, atol=1e-9) on float seconds; the model's `close` is |a - b| <= 1 tick. For two values exactly
+            # 1 ns apart the float comparison |a - b| <= 1e-9 is decided by rounding (1e-9 - 0.0 passes, 1.000000001 - 1.0 does not): not a disagreement
+            res.float_ambiguous += 1
+            why = None
         if why is not None:
             res.disagreements.append({"op": "concat", "input": inp, "model": mo[:200], "impl": got[1] if got[0] == "exc" else type(got[1]).__name__, "why": why})
         # ---- statement-level oracle
@@ -669,73 +776,143 @@ def run_concat(nap, res, tier, operand_lists=None, tag="concat"):
         #   rank  : the NumPy result has another rank than the operands (vstack of Tsd, dstack, axis=None): it is built with the operands' class
         no_row = sum(o.shape[0] for o in ops[1:]) == 0
         rank = e.ndim != ops[0].values.ndim
+        fam_key = {"op": "concatenate_family"}
         if rawmix is not None:
             # a raw operand has no timestamps: only the numbers are specified
-            if got[0] == "exc" or not same_values(raw(nap, got[1]), e):
-                viol(res, {"op": "concatenate_family", "part": "operand_adds_no_row" if no_row else "raw_operand"},
-                     "concatenation with a raw array operand does not give NumPy's values" + (": raises " + got[1] if got[0] == "exc" else ""), inp)
+            if got[0] == "exc":
+                viol(res, dict(fam_key, part="operand_adds_no_row" if no_row else "raw_operand", how="raises", exception=got[1]),
+                     "concatenation with a raw array operand: NumPy computes a result, the call raises " + got[1], inp, impl=got[1])
+            elif not same_values(raw(nap, got[1]), e):
+                viol(res, dict(fam_key, part="raw_operand", how="values", no_later_operand_adds_a_row=no_row), "concatenation with a raw array operand does not give NumPy's values", inp)
             continue
         tcat = [t for o in ops for t in ticks_of(o)]
         sups = [sup_of(o) for o in ops]
         if along_time:
             if strictly_inc(tcat):
                 if got[0] == "exc":
-                    viol(res, {"op": "concatenate_family", "part": "operand_adds_no_row" if no_row else "raises"},
+                    viol(res, dict(fam_key, part="operand_adds_no_row" if no_row else "raises", how="raises", exception=got[1]),
                          "timestamps strictly increasing across operands but concatenation along time raises " + got[1], inp, impl=got[1], expected="time series")
                     continue
                 r = got[1]
                 if not is_nap(nap, r) or type(r) is not type(ops[0]):
-                    viol(res, {"op": "concatenate_family", "part": "not_wrapped"}, "concatenation along time of time series did not return a time series of their class", inp, impl=type(r).__name__)
+                    viol(res, dict(fam_key, part="not_wrapped"), "concatenation along time of time series did not return a time series of their class", inp, impl=type(r).__name__)
                     continue
                 if not same_values(raw(nap, r), e) or ticks_of(r) != tcat:
-                    near = any(abs(t - v) <= 1000 for t in tcat for s in sups for iv in s for v in iv)
-                    viol(res, {"op": "concatenate_family", "part": "rows_or_time" + ("_within_1us_of_support_end" if near else "")},
-                         "result rows / timestamps are not the operands' appended in order", inp, impl=[ticks_of(r)], expected=[tcat])
+                    # the one recorded way to lose rows: supports that touch at p are united as [.., p - 1 us], [p, ..] (C01), and the result is restricted to that union.
+                    # trimmed = exactly the rows whose timestamp lies in such an open microsecond (p - 1 us, p) are missing, every other row is there, in order, with NumPy's values
+                    viol(res, dict(fam_key, **rows_key(nap, r, e, tcat, sups)), "result rows / timestamps are not the operands' appended in order", inp, impl=[ticks_of(r)], expected=[tcat])
                     continue
-                if not support_is_union(sup_of(r), sups):
-                    viol(res, {"op": "concatenate_family", "part": "support"}, "support of the result is not the union of the operands' supports", inp, impl=sup_of(r), expected=sups)
+                sk = support_key(sup_of(r), sups)
+                if sk is not None:
+                    viol(res, dict(fam_key, **sk), "support of the result is not the union of the operands' supports (allowing only C01's trimmed microsecond before a touching point)",
+                         inp, impl=sup_of(r), expected=sups)
                 if isinstance(r, nap.TsdFrame) and cols_of(nap, r) != cols_of(nap, ops[0]):
-                    viol(res, {"op": "concatenate_family", "part": "operand_adds_no_row" if no_row else "columns"},
+                    viol(res, dict(fam_key, part="operand_adds_no_row" if no_row else "columns", how="column_labels_lost"),
                          "column count unchanged but the column labels are lost", inp, impl=cols_of(nap, r), expected=cols_of(nap, ops[0]))
             else:
                 if got[0] == "ok" and is_nap(nap, got[1]):
-                    viol(res, {"op": "concatenate_family", "part": "order_not_checked"}, "timestamps not strictly increasing / overlapping across operands but a time series was returned", inp,
+                    viol(res, dict(fam_key, part="order_not_checked"), "timestamps not strictly increasing / overlapping across operands but a time series was returned", inp,
                          impl=ticks_of(got[1]))
                 elif got[0] == "ok":
-                    viol(res, {"op": "concatenate_family", "part": "order_not_checked_raw"}, "overlapping operands: expected an error, got a raw array", inp)
+                    viol(res, dict(fam_key, part="order_not_checked_raw"), "overlapping operands: expected an error, got a raw array", inp)
         else:
-            # not along time (other axis, or the rank changes): numbers must be NumPy's; a time series result carries the first operand's time axis
-            pk = "result_rank_changes" if rank else None
+            # not along time (other axis, or the rank changes): numbers must be NumPy's; a time series result carries the time axis of EVERY time-series operand.
+            # part "result_rank_changes" is reserved for the two recorded outcomes of building a result of another rank with the operands' class:
+            # an exception, or the same cells in the same order under another shape; anything else keeps its own part
             if got[0] == "exc":
-                viol(res, {"op": "concatenate_family", "part": pk or "other_axis_raises"},
+                viol(res, dict(fam_key, part="result_rank_changes" if rank else "other_axis_raises", how="raises", exception=got[1], no_later_operand_adds_a_row=no_row),
                      "NumPy computes a result on the raw arrays but the call on time series raises " + got[1], inp, impl=got[1], expected="ndarray%s" % (e.shape,))
                 continue
             r = got[1]
-            if not same_values(raw(nap, r), e):
-                viol(res, {"op": "concatenate_family", "part": pk or "values_other_axis"}, "result differs from NumPy's on the raw arrays (shape %s instead of %s)" % (raw(nap, r).shape, e.shape), inp)
+            rv = np.asarray(raw(nap, r))
+            if not same_values(rv, e):
+                reshaped = rank and rv.dtype == e.dtype and rv.size == e.size and same_values(rv.ravel(), e.ravel())
+                viol(res, dict(fam_key, part="result_rank_changes" if reshaped else "values_other_axis", how="same_cells_other_shape" if reshaped else "values", rank_changes=rank),
+                     "result differs from NumPy's on the raw arrays (shape %s instead of %s)" % (rv.shape, e.shape), inp)
             elif is_nap(nap, r) and any(is_nap(nap, o) and (ticks_of(r) != ticks_of(o) or sup_of(r) != sup_of(o)) for o in ops):
-                viol(res, {"op": "concatenate_family", "part": pk or "time_axis_other_axis"}, "time series result does not carry the timestamps / support of every time-series operand", inp)
+                dt = max([abs(a - b) for o in ops if len(ticks_of(o)) == len(ticks_of(r)) for a, b in zip(ticks_of(o), ticks_of(r))] + [0])
+                ds = max([abs(a - b) for o in ops if len(sup_of(o)) == len(sup_of(r)) for iv, jv in zip(sup_of(o), sup_of(r)) for a, b in zip(iv, jv)] + [0])
+                lens = any(len(ticks_of(o)) != len(ticks_of(r)) or len(sup_of(o)) != len(sup_of(r)) for o in ops)
+                if not lens and max(dt, ds) <= 1:
+                    # operands one tick (1 ns = the library's time_index_precision) apart are, by the library's documented design, "equal up to
+                    # pynapple precision": the result carries the FIRST operand's time axis.  The statement fixes "x's timestamps" for one operand x and says
+                    # nothing about how equal several operands' axes must be, so this is counted, not judged (an earlier version of this oracle demanded
+                    # exact equality: a false alarm, corrected)
+                    res.count("concat_other_axis_operands_one_tick_apart")
+                    continue
+                viol(res, dict(fam_key, part="time_axis_other_axis", rank_changes=rank),
+                     "time series result does not carry the timestamps / support of every time-series operand", inp, impl=[ticks_of(r), sup_of(r)])
         if len(res.samples) < 5 and along_time and len(ops) == 2 and got[0] == "ok" and is_nap(nap, got[1]) and ops[0].shape[0] and ops[1].shape[0]:
             res.sample({"concat": inp["function"], "t": inp["t"], "sup": inp["sup"], "result_t": ticks_of(got[1]), "result_sup": sup_of(got[1])})
+
+
+def judge_1us(nap, res, inp, got, ops):
+    tcat = [t for o in ops for t in ticks_of(o)]
+    sups = [sup_of(o) for o in ops]
+    e = np.concatenate([np.asarray(o.values) for o in ops])
+    if got[0] == "exc":
+        viol(res, {"op": "concatenate_family", "part": "raises", "how": "raises", "exception": got[1]}, "strictly increasing timestamps, touching supports: concatenation raises", inp, impl=got[1])
+    elif not is_nap(nap, got[1]):
+        viol(res, {"op": "concatenate_family", "part": "not_wrapped"}, "concatenation along time did not return a time series", inp)
+    elif ticks_of(got[1]) != tcat or not same_values(raw(nap, got[1]), e):
+        viol(res, dict({"op": "concatenate_family"}, **rows_key(nap, got[1], e, tcat, sups)),
+             "supports [a,b] and [b,c] touch: the union is trimmed to [a,b-1us],[b,c] and a sample in (b-1us,b) is dropped from the concatenation",
+             inp, impl=ticks_of(got[1]), expected=tcat)
+    else:
+        sk = support_key(sup_of(got[1]), sups)
+        if sk is not None:
+            viol(res, dict({"op": "concatenate_family"}, **sk), "support of the result is not the union of the operands' supports", inp, impl=sup_of(got[1]), expected=sups)
+
+
+def run_stack_keyword(nap, res):
+    """np.vstack / np.hstack / np.dstack name their operand list `tup`: the keyword spelling must behave as the positional one"""
+    for tail in [(), (2,), (2, 2)]:
+        a = mk(nap, (2,) + tail, t0=0, sup=[(-U, 20 * U)])
+        b = mk(nap, (2,) + tail, t0=6 * U, sup=[(-U, 20 * U)], base=30)
+        for fname, func in [("vstack", np.vstack), ("hstack", np.hstack), ("dstack", np.dstack)]:
+            exp = call(lambda: func(tup=[np.array(a.values), np.array(b.values)]))
+            pos = call(lambda: func([a, b]))
+            got = call(lambda: func(tup=[a, b]))
+            res.case(("stack_keyword", fname, tail))
+            res.count("concat:" + fname + "[tup=]")
+            inp = {"function": fname + "(tup=[a, b])", "tail": list(tail), "t": [ticks_of(a), ticks_of(b)]}
+            if exp[0] == "exc" or pos[0] == "exc":
+                continue                                 # rejected by NumPy, or the positional form already fails (judged in run_concat)
+            same = got[0] == "ok" and same_values(raw(nap, got[1]), exp[1]) and type(got[1]) is type(pos[1]) \
+                and (not is_nap(nap, pos[1]) or (ticks_of(got[1]) == ticks_of(pos[1]) and sup_of(got[1]) == sup_of(pos[1])))
+            if not same:
+                viol(res, {"op": "concatenate_family", "part": "raises" if got[0] == "exc" else "values_other_axis", "how": "raises" if got[0] == "exc" else "differs_from_positional_call",
+                           "array_by_keyword": True, "exception": got[1] if got[0] == "exc" else None},
+                     "the positional call np.%s([a, b]) works, the keyword spelling np.%s(tup=[a, b]) does not give the same" % (fname, fname), inp,
+                     impl=got[1] if got[0] == "exc" else type(got[1]).__name__, expected=type(pos[1]).__name__)
 
 
 def run_concat_1us(nap, res):
     """supports that touch: IntervalSet.union trims the earlier one by 1 us; a sample inside that last microsecond"""
     lines, cases = [], []
-    for d in (400, 999, 1001, 2000):
+    for d in (1, 400, 999, 1000, 1001, 2000):
         x = nap.Tsd(G.arr([0, 8 * U - d]), np.array([1.0, 2.0]), time_support=nap.IntervalSet(G.arr([-U]), G.arr([8 * U])))
         y = nap.Tsd(G.arr([8 * U + U, 10 * U]), np.array([3.0, 4.0]), time_support=nap.IntervalSet(G.arr([8 * U]), G.arr([12 * U])))
         got = call(lambda: np.concatenate([x, y]))
         res.case(("concat_touching_support", d))
         res.count("concat_touching_support")
-        tcat = ticks_of(x) + ticks_of(y)
         inp = {"function": "concatenate", "t": [ticks_of(x), ticks_of(y)], "sup": [sup_of(x), sup_of(y)]}
         cases.append((inp, got))
         lines.append("concat\t2\t%s\t%s\t4\t1 2 3 4" % (ts6(nap, x), ts6(nap, y)))
-        if got[0] == "exc" or ticks_of(got[1]) != tcat:
-            viol(res, {"op": "concatenate_family", "part": "rows_or_time_within_1us_of_support_end"},
-                 "supports [a,b] and [b,c] touch: the union is trimmed to [a,b-1us],[b,c] and a sample in (b-1us,b) is dropped from the concatenation",
-                 inp, impl=got[1] if got[0] == "exc" else ticks_of(got[1]), expected=tcat)
+        judge_1us(nap, res, inp, got, [x, y])
+    # three operands whose supports unite to ONE interval: the first two touch at p = 8U, the third covers [p - 0.5 us, ..]; the pairwise fold trims
+    # [.., p - 1 us] first and the third operand then starts after that end: a gap (p - 1 us, p - 0.5 us) the union does not have
+    for d in (700, 300):
+        x = nap.Tsd(G.arr([0, 8 * U - d]), np.array([1.0, 2.0]), time_support=nap.IntervalSet(G.arr([-U]), G.arr([8 * U])))
+        y = nap.Tsd(G.arr([8 * U + U, 10 * U]), np.array([3.0, 4.0]), time_support=nap.IntervalSet(G.arr([8 * U]), G.arr([12 * U])))
+        z = nap.Tsd(G.arr([13 * U, 14 * U]), np.array([5.0, 6.0]), time_support=nap.IntervalSet(G.arr([8 * U - 500]), G.arr([16 * U])))
+        got = call(lambda: np.concatenate([x, y, z]))
+        res.case(("concat_touching_support_bridged", d))
+        res.count("concat_touching_support")
+        inp = {"function": "concatenate", "t": [ticks_of(o) for o in (x, y, z)], "sup": [sup_of(o) for o in (x, y, z)]}
+        cases.append((inp, got))
+        lines.append("concat\t3\t%s\t%s\t%s\t6\t1 2 3 4 5 6" % (ts6(nap, x), ts6(nap, y), ts6(nap, z)))
+        judge_1us(nap, res, inp, got, [x, y, z])
     for (inp, got), mo in zip(cases, C.run_model(lines, driver="driver_c14")):
         why = agree(nap, parse_out(mo), got)
         if why is not None:
@@ -744,6 +921,23 @@ def run_concat_1us(nap, res):
 
 # ------------------------------------------------------------------------------------------------
 # split family
+def _nd(a):
+    return len(a.shape)
+
+
+# every spelling of "split along the time axis": (name, call, array_split?, how the axis is spelled)
+SPLIT_TIME_FORMS = [
+    ("split", np.split, 0, "default"), ("array_split", np.array_split, 1, "default"), ("vsplit", np.vsplit, 0, "default"),
+    ("split(axis=0)", lambda a, s: np.split(a, s, axis=0), 0, "0"), ("split(a,s,0)", lambda a, s: np.split(a, s, 0), 0, "0"),
+    ("array_split(axis=0)", lambda a, s: np.array_split(a, s, axis=0), 1, "0"),
+    ("split(axis=-ndim)", lambda a, s: np.split(a, s, axis=-_nd(a)), 0, "-ndim"), ("split(a,s,-ndim)", lambda a, s: np.split(a, s, -_nd(a)), 0, "-ndim"),
+    ("array_split(axis=-ndim)", lambda a, s: np.array_split(a, s, axis=-_nd(a)), 1, "-ndim"),
+    ("split(ary=,indices_or_sections=)", lambda a, s: np.split(ary=a, indices_or_sections=s), 0, "default", True),
+    ("array_split(ary=,indices_or_sections=)", lambda a, s: np.array_split(ary=a, indices_or_sections=s), 1, "default", True),
+    ("vsplit(ary=,indices_or_sections=)", lambda a, s: np.vsplit(ary=a, indices_or_sections=s), 0, "default", True),
+]
+
+
 def run_split(nap, res, tier, plan=None, tag="split"):
     lines, cases = [], []
     olines, ocases = [], []
@@ -756,28 +950,34 @@ def run_split(nap, res, tier, plan=None, tag="split"):
             plan.append((shape, ioss, [1, 2, 3, [1], [1, 2], [0]]))
     for shape, ioss, oioss in plan:
         n = shape[0]
-        for fname, func, asplit in [("split", np.split, 0), ("array_split", np.array_split, 1), ("vsplit", np.vsplit, 0)]:
+        for fname, func, asplit, axis_form, *kw in SPLIT_TIME_FORMS:
             for kind, ios in ioss:
                 x = mk(nap, shape)
                 xv = np.array(x.values)
                 exp = call(func, xv, ios)
                 got = call(func, x, ios)
-                inp = {"function": fname, "shape": list(shape), kind: ios}
-                res.count(tag + ":" + fname)
+                inp = {"function": fname, "shape": list(shape), kind: ios, "axis_form": axis_form, "array_by_keyword": bool(kw)}
+                res.count(tag + ":" + fname.split("(")[0] + ("" if axis_form == "default" else "[axis " + axis_form + "]") + ("[ary=]" if kw else ""))
                 if exp[0] == "exc":
                     res.case((tag, fname, shape, str(ios)), nontrivial=False)
                     res.count("numpy_rejects")
                     if got[0] == "ok":
-                        viol(res, {"op": fname, "part": "numpy_rejects_but_wrapper_returns"}, "NumPy rejects the split of the raw array but the wrapper returns", inp)
+                        viol(res, {"op": fname.split("(")[0], "part": "numpy_rejects_but_wrapper_returns"}, "NumPy rejects the split of the raw array but the wrapper returns", inp)
                     continue
                 e = exp[1]
                 res.case((tag, fname, shape, str(ios)), nontrivial=len(e) > 1 and n > 0)
                 cases.append((inp, x, e, got))
-                lines.append("split\t%d\t%d\t%s\t%s" % (asplit, 0 if kind == "sections" else 1, str(ios) if kind == "sections" else C.fmt_ints(ios), ts6(nap, x)))
+                # the model's split_tsd is the `axis == 0` branch of _split_tsd: the default and the explicit 0 reach it; the negative spelling of
+                # the time axis and the keyword spelling of the array are judged by the statement-level oracle only
+                lines.append("split\t%d\t%d\t%s\t%s" % (asplit, 0 if kind == "sections" else 1, str(ios) if kind == "sections" else C.fmt_ints(ios), ts6(nap, x))
+                             if axis_form in ("default", "0") and not kw else None)
         # not along axis 0 of the model: hsplit / dsplit / split(axis=1)
         for fname, func in [("hsplit", lambda a, s: np.hsplit(a, s)), ("dsplit", lambda a, s: np.dsplit(a, s)), ("split(axis=1)", lambda a, s: np.split(a, s, axis=1)),
                             ("array_split(axis=1)", lambda a, s: np.array_split(a, s, axis=1)),
-                            ("split(a,s,1)", lambda a, s: np.split(a, s, 1)), ("array_split(a,s,1)", lambda a, s: np.array_split(a, s, 1))]:
+                            ("split(a,s,1)", lambda a, s: np.split(a, s, 1)), ("array_split(a,s,1)", lambda a, s: np.array_split(a, s, 1)),
+                            ("split(axis=-1)", lambda a, s: np.split(a, s, axis=-1)), ("hsplit(ary=,indices_or_sections=)", lambda a, s: np.hsplit(ary=a, indices_or_sections=s))]:
+            if fname == "split(axis=-1)" and len(shape) == 1:
+                continue                                 # -1 IS the time axis of a Tsd: covered by the "-ndim" forms above
             for ios in oioss:
                 x = mk(nap, shape)
                 xv = np.array(x.values)
@@ -798,10 +998,13 @@ def run_split(nap, res, tier, plan=None, tag="split"):
                     olines.append("split_other\t%s\t%d\t%s" % (ts6(nap, x), len(e), "\t".join(C.fmt_ints(p.shape) + "\t" + C.fmt_ints(p.ravel()) for p in e)))
                 else:
                     olines.append(None)
-    out = C.run_model(lines, driver="driver_c14")
-    for (inp, x, e, got), mo in zip(cases, out):
+    mit = iter(C.run_model([l for l in lines if l is not None], driver="driver_c14"))
+    for (inp, x, e, got), l in zip(cases, lines):
+        mo = next(mit) if l is not None else None
         # ---- correspondence
-        if mo.startswith("ERR "):
+        if mo is None:
+            res.count("split_oracle_only(no model line)")
+        elif mo.startswith("ERR "):
             ok = got == ("exc", ERRMAP.get(mo[4:], "?"))
             if not ok:
                 res.disagreements.append({"op": "split", "input": inp, "model": mo, "impl": str(got[1])[:80]})
@@ -816,10 +1019,11 @@ def run_split(nap, res, tier, plan=None, tag="split"):
                         res.disagreements.append({"op": "split", "input": inp, "model": mo[:200], "impl": type(piece).__name__, "why": why})
                         break
         # ---- statement-level oracle: the pieces partition timestamps together with the data
-        fname = inp["function"]
+        fname = inp["function"].split("(")[0]
+        axf = inp["axis_form"]
         if got[0] == "exc":
-            uneven = fname == "array_split" and "sections" in inp and inp["sections"] > 0 and x.shape[0] % inp["sections"] != 0
-            viol(res, {"op": fname, "part": "uneven_sections" if uneven else "raises"},
+            uneven = fname == "array_split" and "sections" in inp and inp["sections"] > 0 and x.shape[0] % inp["sections"] != 0 and got[1] == "ValueError"
+            viol(res, {"op": fname, "part": "uneven_sections" if uneven else "raises", "axis": axf, "array_by_keyword": inp["array_by_keyword"], "exception": got[1]},
                  "NumPy splits the raw array but the split of the time series raises " + got[1] + (" (the index is always divided with np.split)" if uneven else ""), inp,
                  impl=got[1], expected=[list(p.shape) for p in e])
             continue
@@ -853,8 +1057,11 @@ def run_split(nap, res, tier, plan=None, tag="split"):
             if bad is None and monotone and [t for p in pcs for t in ticks_of(p)] != tt:
                 bad = "pieces do not partition the timestamps"
         if bad:
-            viol(res, {"op": fname, "part": "partition"}, "split along time: " + bad, inp)
-        if len(res.samples) < 7 and len(e) == 2 and x.shape[0] == 5 and fname == "split" and all(is_nap(nap, p) for p in pcs):
+            # all_pieces_raw_with_numpy_values: the numbers are NumPy's, but every piece came back as a bare ndarray (the time axis is not split with the data)
+            allraw = len(pcs) == len(e) and len(pcs) > 0 and all(isinstance(p, np.ndarray) and same_values(p, ep) for p, ep in zip(pcs, e))
+            viol(res, {"op": fname, "part": "partition", "axis": axf, "array_by_keyword": inp["array_by_keyword"], "all_pieces_raw_with_numpy_values": allraw}, "split along time: " + bad, inp,
+                 impl=[type(p).__name__ for p in pcs][:4])
+        if len(res.samples) < 7 and len(e) == 2 and x.shape[0] == 5 and inp["function"] == "split" and all(is_nap(nap, p) for p in pcs):
             res.sample({"split": inp, "pieces_t": [ticks_of(p) for p in pcs]})
     oout = C.run_model([l for l in olines if l is not None], driver="driver_c14")
     it = iter(oout)
@@ -871,7 +1078,8 @@ def run_split(nap, res, tier, plan=None, tag="split"):
                         res.disagreements.append({"op": "split_other", "input": inp, "model": mo[:200], "impl": type(piece).__name__, "why": why})
                         break
         if got[0] == "exc":
-            viol(res, {"op": fname, "part": "raises"}, "NumPy splits the raw array but the call on the time series raises " + got[1], inp)
+            viol(res, {"op": fname.split("(")[0], "part": "raises", "axis": "other", "array_by_keyword": "ary=" in fname, "exception": got[1]},
+                 "NumPy splits the raw array but the call on the time series raises " + got[1], inp)
             continue
         pcs = got[1]
         if len(pcs) != len(e) or not all(same_values(raw(nap, p), ep) for p, ep in zip(pcs, e)):
@@ -880,7 +1088,7 @@ def run_split(nap, res, tier, plan=None, tag="split"):
         for p in pcs:
             if is_nap(nap, p) and (ticks_of(p) != ticks_of(x) or sup_of(p) != sup_of(x)):
                 viol(res, {"op": fname, "part": "time_axis"}, "a piece that is a time series does not carry x's timestamps / support", inp)
-        if fname == "hsplit" and x.values.ndim == 1 and x.shape[0] and not all(is_nap(nap, p) for p in pcs):
+        if fname.startswith("hsplit") and x.values.ndim == 1 and x.shape[0] and not all(is_nap(nap, p) for p in pcs):
             viol(res, {"op": "hsplit", "part": "1d_along_time_loses_timestamps"},
                  "np.hsplit of a Tsd splits ALONG TIME (1-d) but returns raw arrays: the timestamps are not partitioned with the data", inp, impl=[type(p).__name__ for p in pcs])
 
@@ -892,9 +1100,12 @@ def run(res, tier, seed):
                 "reshaping/indexing, non-array results, the exclusion list, np.fft; function and method forms) x EVERY shape (n,),(n,3),(n,n),(n,1),(n,3,2),(n,n,2),4-d with n in {0,1,2,5} [complete]; "
                 "the implementation must equal the same NumPy call on the raw array bit for bit and the time axis/support/class/columns must match both the statement and the extracted model's verdict. "
                 "same-class pairs and ufunc methods (refused); mixed-class pairs on square / length-1 shapes, both orders; in-place operators. "
-                "concatenate family (10 call forms): ALL operand lists over lengths {0,1,2,3} (1-3 operands) x row shapes x 5 time layouts (sequential, touching, overlapping, reversed, interleaved) "
-                "x 3 support layouts, with a raw operand mixed in; split family: ALL sections 0..n+2 and all index lists of length <= 2 over 0..n+1 (+ unsorted, empty) for split/array_split/vsplit, "
-                "hsplit/dsplit/axis=1. thorough adds seeded random shapes/functions, random concatenations of 2-5 operands and random splits. non-trivial = the NumPy result is an array of rank >= 1 on a non-empty series (a wrapping decision is made) / >= 2 operands or pieces")
+                "concatenate family (11 call forms incl. axis=-ndim, + vstack/hstack/dstack(tup=..)): ALL operand lists over lengths {0,1,2,3} (1-3 operands) x row shapes x 5 time layouts (sequential, touching, overlapping, reversed, interleaved) "
+                "x 3 support layouts, equal-length operands with the same time axis / one operand shifted by 2^-9 s / by 1 ns or 2 ns (first stamp, every stamp, support start, support end: 'equal up to precision'), "
+                "with a raw operand mixed in; touching supports with a sample 1, 400, 999, 1000, 1001, 2000 ns before the touching point, and three operands where the third bridges the touching point; "
+                "the result support is compared EXACTLY with the union (only C01's trimmed microsecond before a touching point may be missing). "
+                "split family: ALL sections 0..n+2 and all index lists of length <= 2 over 0..n+1 (+ unsorted, empty) for split/array_split/vsplit in every spelling of the time axis "
+                "(default, axis=0, positional 0, axis=-ndim, positional -ndim, ary=/indices_or_sections= keywords), hsplit/dsplit/axis=1/axis=-1. thorough adds seeded random shapes/functions, random concatenations of 2-5 operands and random splits. non-trivial = the NumPy result is an array of rank >= 1 on a non-empty series (a wrapping decision is made) / >= 2 operands or pieces")
     res.exhaustive = True
     run_wrap(nap, res, tier)
     run_same_class(nap, res)
@@ -902,6 +1113,7 @@ def run(res, tier, seed):
     run_inplace(nap, res)
     run_concat(nap, res, tier)
     run_concat_1us(nap, res)
+    run_stack_keyword(nap, res)
     run_split(nap, res, tier)
     if tier != "quick":
         run_random(nap, res, seed)
